@@ -120,6 +120,9 @@ def _image_frame(st, idx, anchor="as-char", extra_attrs=""):
     img = st.images[idx]
     form = st.opts.get("img_ref", "relative")
     name = f"Pictures/image{idx + 1}.{img['ext']}"
+    if st.opts.get("share_media"):
+        # one picture part placed several times (a logo on every slide): later placements point at the part stored first
+        name = next((n for n, d in st.media.items() if d == img["data"]), name)
     st.media[name] = img["data"]
     href = {"relative": name, "dot": "./" + name}[form] if not img.get("external") else img["external"]
     w, h = img.get("disp_w") or f"{img.get('w', 10) / 96 * 2.54:.4f}cm", img.get("disp_h") or f"{img.get('h', 10) / 96 * 2.54:.4f}cm"
